@@ -161,6 +161,11 @@ func valueDesc(v ssa.Value) string {
 		return "param:" + x.Name()
 	case *ssa.FreeVar:
 		return "freevar:" + x.Name()
+	case *ssa.Call:
+		// a function value returned by a call: named after the function that returned it
+		if sc := x.Call.StaticCallee(); sc != nil {
+			return "resultof:" + sc.Name()
+		}
 	}
 	return v.Name()
 }
@@ -337,7 +342,7 @@ func (fr *Frame) afterCallA(st *State, name string, res Val, args []Val) {
 		for k, a := range args {
 			env.vars[fmt.Sprintf("arg%d", k)] = a
 		}
-		u.assumeG(st, env.trBool(c.E))
+		u.assumeG(st, trBoolTol(env, c, "true"))
 		u.note("assumed about the result of %s in %s: %s", name, top.fn, c.Src)
 	}
 	// record called(...) / ret(...) ghosts for every pattern mentioned in the contract
@@ -356,6 +361,10 @@ func (fr *Frame) afterCallA(st *State, name string, res Val, args []Val) {
 		cn := "$count:" + pat
 		u.regHeap(cn, "Int")
 		u.heapSet(st, cn, app("+", u.heapCur(st, cn), "1"))
+		// allocsince("pat", x): the allocation counter when the last matching call returned
+		an := "$count:allocat:" + pat
+		u.regHeap(an, "Int")
+		u.heapSet(st, an, u.heapCur(st, "$alloc"))
 		for k, r := range rs {
 			if r.S == "Bool" {
 				tn := fmt.Sprintf("$cnttrue:%s:%d", pat, k)
@@ -396,7 +405,7 @@ func (fr *Frame) ghostPatterns() []string {
 	walk = func(e Expr) {
 		switch x := e.(type) {
 		case *ECall:
-			if (x.Fn == "called" || x.Fn == "ret" || x.Fn == "ret1" || x.Fn == "ret2" || x.Fn == "ret3" || x.Fn == "first" || x.Fn == "count" || x.Fn == "counttrue0" || x.Fn == "counttrue1" || x.Fn == "countnil0" || x.Fn == "countnil1" || x.Fn == "countnil2") && len(x.Args) >= 1 {
+			if (x.Fn == "called" || x.Fn == "ret" || x.Fn == "ret1" || x.Fn == "ret2" || x.Fn == "ret3" || x.Fn == "first" || x.Fn == "count" || x.Fn == "counttrue0" || x.Fn == "counttrue1" || x.Fn == "countnil0" || x.Fn == "countnil1" || x.Fn == "countnil2" || x.Fn == "allocsince") && len(x.Args) >= 1 {
 				if s, ok := x.Args[0].(*EStr); ok && !seen[s.V] {
 					seen[s.V] = true
 					out = append(out, s.V)
@@ -537,7 +546,7 @@ func (fr *Frame) applyContract(st *State, fc *FuncContract, callee *ssa.Function
 	return resultVal(u, sig, res)
 }
 
-var ghostRe = regexp.MustCompile(`\b(called|ret|ret1|ret2|ret3|first|count|counttrue0|counttrue1|countnil0|countnil1|countnil2)\("`)
+var ghostRe = regexp.MustCompile(`\b(called|ret|ret1|ret2|ret3|first|count|counttrue0|counttrue1|countnil0|countnil1|countnil2|allocsince)\("`)
 
 func shortName(n string) string {
 	if i := strings.LastIndex(n, "/"); i >= 0 {
